@@ -4,6 +4,7 @@ package main
 // write evidence. Exit 0 held / 1 violation / 2 undecided.
 
 import (
+	"sync"
 	"bufio"
 	"encoding/json"
 	"flag"
@@ -239,6 +240,22 @@ func checkMain(args []string) int {
 	if *replayDirFlag != "" {
 		replayDir = filepath.Join(*replayDirFlag, id)
 	}
+	// Failing obligations are judged concurrently (re-solves and replays are
+	// slow); everything that touches a generation context happens first,
+	// sequentially.
+	type failJob struct {
+		o     *Obligation
+		r     *FuncResult
+		known *KnownFinding
+		o2    *Obligation // o restricted to the complement of the known region
+	}
+	type failOut struct {
+		knownLine, restricted, solver string
+		seconds                       float64
+		handled                       bool
+		violationLine, undecided      string
+	}
+	var jobs []*failJob
 	for _, o := range pr.obls {
 		solverSeconds += o.Seconds
 		if o.Kind == "vacuity" {
@@ -258,51 +275,62 @@ func checkMain(args []string) int {
 			bySolver[o.Solver]++
 			continue
 		}
-		// failing obligation
-		r := resOf[o]
+		job := &failJob{o: o, r: resOf[o]}
 		handled := false
-		for _, k := range known {
+		for i := range known {
+			k := &known[i]
 			if k.Kind != "known" || !propListed(k.Property, id) || k.Obligation != o.Name {
 				continue
 			}
-			// is the failure confined to the listed region?
 			if k.Region == "" {
 				knownLines = append(knownLines, fmt.Sprintf("KNOWN-FINDING: property=%s %s (%s)", id, k.Text, o.Name))
 				handled = true
 				total--
 				break
 			}
-			renv := r.PostEnv
+			renv := job.r.PostEnv
 			if renv == nil {
-				renv = r.EntryEnv
+				renv = job.r.EntryEnv
 			}
 			if renv != nil {
-				e, perr := ParseExpr(k.Region)
-				if perr == nil {
-					rt, eerr := renv.Bool(e)
-					if eerr == nil {
+				if e, perr := ParseExpr(k.Region); perr == nil {
+					if rt, eerr := renv.Bool(e); eerr == nil {
 						o2 := *o
 						o2.Guard = and(o.Guard, not(rt))
 						o2.Name = o.Name + "~outside-known-region"
 						// the region term may use names declared after o.Mark
-						o2.Mark = len(o.Ctx.lines)
+						o2.Mark = o.Ctx.mark()
 						o2.Inputs = nil
-						o2.Solve(work, timeout, false)
-						solverSeconds += o2.Seconds
-						if o2.Status == "unsat" {
-							knownLines = append(knownLines, fmt.Sprintf("KNOWN-FINDING: property=%s %s (%s fails only where %s)", id, k.Text, o.Name, k.Region))
-							restricted = append(restricted, fmt.Sprintf("%s proved outside the known region %s", o.Name, k.Region))
-							discharged++
-							bySolver[o2.Solver]++
-							handled = true
-						}
+						job.known, job.o2 = k, &o2
 					}
 				}
 			}
 			break
 		}
-		if handled {
-			continue
+		if !handled {
+			jobs = append(jobs, job)
+		}
+	}
+	// freeze the contexts: from here on they are only read
+	ctxLen := map[*Ctx]int{}
+	for _, j := range jobs {
+		if _, ok := ctxLen[j.o.Ctx]; !ok {
+			ctxLen[j.o.Ctx] = j.o.Ctx.mark()
+		}
+	}
+	outs := make([]failOut, len(jobs))
+	judge := func(j *failJob) (out failOut) {
+		o, r := j.o, j.r
+		if j.o2 != nil {
+			j.o2.Solve(work, timeout, false)
+			out.seconds += j.o2.Seconds
+			if j.o2.Status == "unsat" {
+				out.knownLine = fmt.Sprintf("KNOWN-FINDING: property=%s %s (%s fails only where %s)", id, j.known.Text, o.Name, j.known.Region)
+				out.restricted = fmt.Sprintf("%s proved outside the known region %s", o.Name, j.known.Region)
+				out.solver = j.o2.Solver
+				out.handled = true
+				return
+			}
 		}
 		// replay
 		rf := &ReplayFile{Property: id, Obligation: o.Name, Kind: o.Kind, Function: o.Func, Text: o.Text, Pos: o.Pos,
@@ -314,7 +342,7 @@ func checkMain(args []string) int {
 			// solve it again in the context of the whole function so that the
 			// model also predicts the outputs.
 			o2 := *o
-			o2.Mark = len(o.Ctx.lines)
+			o2.Mark = ctxLen[o.Ctx]
 			o2.Inputs = r.AllTerms
 			o2.Name = o.Name + "~full"
 			o2.Solve(work, timeout, false)
@@ -396,23 +424,52 @@ func checkMain(args []string) int {
 		case confirmed:
 			rf.Verdict = "violation: counterexample confirmed on the real code"
 			writeJSON(rpath, rf)
-			fmt.Printf("VIOLATION property=%s replay=%s\n", id, rpath)
-			violations++
-			exit = 1
+			out.violationLine = fmt.Sprintf("VIOLATION property=%s replay=%s", id, rpath)
 		case o.Safety && replayRan && !confirmed:
 			rf.Verdict = "undecided: the model's input does not make the real code fail (invariant too weak for this code)"
 			writeJSON(rpath, rf)
-			undecided = append(undecided, fmt.Sprintf("%s: %s; model not reproducible on the real code (%s)", o.Name, o.Status, rpath))
+			out.undecided = fmt.Sprintf("%s: %s; model not reproducible on the real code (%s)", o.Name, o.Status, rpath)
 		case wasLocked:
 			rf.Verdict = "violation: obligation was discharged on the reference tree and fails now; no failing input found"
 			writeJSON(rpath, rf)
-			fmt.Printf("VIOLATION property=%s replay=%s no-failing-input-found\n", id, rpath)
-			violations++
-			exit = 1
+			out.violationLine = fmt.Sprintf("VIOLATION property=%s replay=%s no-failing-input-found", id, rpath)
 		default:
 			rf.Verdict = "undecided: obligation is not in obligations.lock"
 			writeJSON(rpath, rf)
-			undecided = append(undecided, fmt.Sprintf("%s: %s (%s) [%s]", o.Name, o.Status, o.Text, o.Pos))
+			out.undecided = fmt.Sprintf("%s: %s (%s) [%s]", o.Name, o.Status, o.Text, o.Pos)
+		}
+		return
+	}
+	{
+		sem := make(chan struct{}, 6)
+		var wg sync.WaitGroup
+		for i, j := range jobs {
+			wg.Add(1)
+			sem <- struct{}{}
+			go func(i int, j *failJob) {
+				defer wg.Done()
+				defer func() { <-sem }()
+				outs[i] = judge(j)
+			}(i, j)
+		}
+		wg.Wait()
+	}
+	for _, out := range outs {
+		solverSeconds += out.seconds
+		if out.handled {
+			knownLines = append(knownLines, out.knownLine)
+			restricted = append(restricted, out.restricted)
+			discharged++
+			bySolver[out.solver]++
+			continue
+		}
+		if out.violationLine != "" {
+			fmt.Println(out.violationLine)
+			violations++
+			exit = 1
+		}
+		if out.undecided != "" {
+			undecided = append(undecided, out.undecided)
 		}
 	}
 	coverSat, coverWeak, coverUnknown := 0, 0, 0
